@@ -41,6 +41,7 @@ class FakeKernel:
         self.calls = []
         self.eperm = False
         self.owner = {}                   # path -> (uid, gid) set by chown
+        self.capless = ()                 # privilege calls the kernel refuses even to uid 0 (capability not held)
 
     def snapshot(self):
         d = {k: self.c[k] for k in CRED_KEYS}
@@ -52,8 +53,8 @@ class FakeKernel:
         self.eperm = True
         raise PermissionError(errno.EPERM, "Operation not permitted")
 
-    def priv(self):
-        return self.c["euid"] == 0
+    def priv(self, call=None):
+        return self.c["euid"] == 0 and call not in self.capless
 
     # getters
     def getuid(self): return self.c["ruid"]
@@ -65,7 +66,7 @@ class FakeKernel:
     def getgroups(self): return sorted(self.c["groups"])
 
     def setuid(self, u):
-        if self.priv():
+        if self.priv("setuid"):
             self.c.update(ruid=u, euid=u, suid=u)
         elif u in (self.c["ruid"], self.c["suid"]):
             self.c["euid"] = u
@@ -74,7 +75,7 @@ class FakeKernel:
         self.calls.append("setuid")
 
     def setgid(self, g):
-        if self.priv():
+        if self.priv("setgid"):
             self.c.update(rgid=g, egid=g, sgid=g)
         elif g in (self.c["rgid"], self.c["sgid"]):
             self.c["egid"] = g
@@ -83,14 +84,14 @@ class FakeKernel:
         self.calls.append("setgid")
 
     def initgroups(self, username, g):
-        if not self.priv():
+        if not self.priv("initgroups"):
             self._deny("initgroups")
         uid = int(username[1:])
         self.c["groups"] = set(self.ug.get(uid, ())) | {g}
         self.calls.append("initgroups")
 
     def setgroups(self, groups):
-        if not self.priv():
+        if not self.priv("initgroups"):
             self._deny("setgroups")
         self.c["groups"] = set(groups)
         self.calls.append("setgroups")
@@ -194,9 +195,10 @@ def make_worker_class(rec, creds_fn, beat_fn, on_load=None):
     return W
 
 
-def run_fake(row):
+def run_fake(row, capless=()):
     """row: one case of PrivsCases (abstract ids).  Runs Worker.__init__ (heartbeat file + chown) as the
-    master and Worker.init_process as the forked worker on the fake kernel."""
+    master and Worker.init_process as the forked worker on the fake kernel.  capless: privilege calls the kernel
+    refuses although the caller is uid 0 (CAP_SETUID / CAP_SETGID not in the bounding set, user namespaces)."""
     import gunicorn.util as gutil
     import gunicorn.workers.workertmp as gtmp
     m = row["m"]
@@ -228,6 +230,8 @@ def run_fake(row):
         if worker is not None:
             child = FakeKernel(master.snapshot(), master.ug, known)   # fork
             child.calls = master.calls
+            cap = row["case"].get("cap", "all")
+            child.capless = tuple(capless) or {"nosetuid": ("setuid",), "nosetgid": ("setgid",), "noinitgroups": ("initgroups",)}.get(cap, ())
             holder["k"] = child
             try:
                 worker.init_process()
@@ -247,6 +251,7 @@ def run_fake(row):
                 pass
     k = holder["k"]
     rec["eperm"] = k.eperm or master.eperm
+    rec["capless"] = bool(capless) or row["case"].get("cap", "all") != "all"
     rec["calls"] = [c for c in (master.calls if k is master else k.calls)]
     rec["m1"] = master.snapshot()
     return rec
@@ -266,7 +271,7 @@ def run_real_child(spec, out_fd):
     """in a forked child: play the master, fork the worker, report through out_fd"""
     sys.path.insert(0, REPO)
     rec = {"mode": "real", "case": spec["case"], "uid": spec["uid"], "gid": spec["gid"], "ug": spec["ug"],
-           "known": spec["known"], "end": "", "loaded": False, "beat": False, "exc": "", "eperm": False,
+           "known": spec["known"], "end": "", "loaded": False, "beat": False, "exc": "", "eperm": False, "capless": False,
            "calls": []}
     try:
         import gunicorn.config, gunicorn.workers.base, gunicorn.workers.workertmp, gunicorn.util   # noqa: before the drop
